@@ -15,6 +15,7 @@ def build(P):
              native={"cmd": "contract", "module": "asl_workflow_engine.arn", "func": "parse_arn"})
     for mod in ("rest_api_asyncio", "rest_api"):
         P.verify("asl_workflow_engine/%s.py::valid_name" % mod,
+                 obl_prefix=mod + ".valid_name",
                  native={"cmd": "contract", "module": "asl_workflow_engine." + mod, "func": "valid_name"})
     P.lemma(L + "mint_parse_state_machine", types={"name": "str", "region": "str", "account": "str"},
             requires=NAME_OK + ["not (':' in region)", "not ('/' in region)", "re_full('[0-9]+', account)"],
